@@ -82,8 +82,11 @@ def random_calls(ctx, calls):
         arr = dd.random_array(rng, dtype)
         r = rng.random()
         if r < 0.6:
+            outs = dd.outside_values(dtype)
+            if arr.dtype.kind == "f" and float(abs(arr).max()) > 2.0 ** 100:
+                outs = [None, 0.0]      # (a small outside value next to 2^127 has no exact float32 mean)
             add_call(ctx, calls, "random", "average", rng.choice(dd.AVG_FACTORS),
-                     rng.choice(dd.outside_values(dtype)), arr)
+                     rng.choice(outs), arr)
         elif r < 0.8:
             if arr.size > 64:        # the majority downscaler is a slow Python loop
                 arr = arr[:, :4, :4, :4]
